@@ -35,6 +35,7 @@
 //	c02.interp_grow_slot    interpreter/interpreter.go callNativeFunc + popMemoryOffset   what memory.grow pushes; how a static offset is added to a popped address
 //	c07.cache_hit_restore   wazevo/engine_cache.go getCompiledModule              per-module state restored after a file-cache hit: unconditional assignments, and those under a condition
 //	c16.dirfs_rename        sysfs/dirfs_supported.go dirFS.Rename                  the statements of the function
+//	c02.strict_opcodes      wazevo/ssa/instructions.go instructionSideEffects      the opcodes classified sideEffectStrict (they end an instruction group), sorted
 package main
 
 import (
@@ -687,6 +688,36 @@ func main() {
 			sts = append(sts, src(st))
 		}
 		add("c16.dirfs_rename", strings.Join(sts, " | "))
+	}
+	{
+		f, err := parser.ParseFile(fset, filepath.Join(*repo, "internal/engine/wazevo/ssa/instructions.go"), nil, 0)
+		if err != nil {
+			die("%v", err)
+		}
+		var strict []string
+		found := false
+		ast.Inspect(f, func(n ast.Node) bool {
+			vs, ok := n.(*ast.ValueSpec)
+			if !ok || len(vs.Names) != 1 || vs.Names[0].Name != "instructionSideEffects" || len(vs.Values) != 1 {
+				return true
+			}
+			cl, ok := vs.Values[0].(*ast.CompositeLit)
+			if !ok {
+				return true
+			}
+			found = true
+			for _, el := range cl.Elts {
+				if kv, ok := el.(*ast.KeyValueExpr); ok && src(kv.Value) == "sideEffectStrict" {
+					strict = append(strict, strings.TrimPrefix(src(kv.Key), "Opcode"))
+				}
+			}
+			return false
+		})
+		if !found {
+			die("instructions.go: no table instructionSideEffects")
+		}
+		sort.Strings(strict)
+		add("c02.strict_opcodes", strings.Join(strict, " "))
 	}
 	add("c09.compiled_fields", "wazevo.compiledModule: "+structFields(*repo, "internal/engine/wazevo/engine.go", "compiledModule")+
 		" ;; interpreter.compiledFunction: "+structFields(*repo, "internal/engine/interpreter/interpreter.go", "compiledFunction"))
